@@ -30,7 +30,10 @@ man = {
               "baseline_off_cmd": "cd /repo && /venv/bin/python -m pytest -ra -q -p no:cacheprovider --timeout=900 --continue-on-collection-errors",
               "source_commits": [], "add_only": True},
     "engines": [
-        {"name": "xh", "path": "vtlib/core.py + harness/*.py", "serves_properties": sorted(p for p in claimed), "kind_free_text": "CrossHair symbolic execution of real Python bytecode with z3, fake I/O back ends"},
+        {"name": "xh", "path": "vtlib/core.py + vtlib/xhfix.py + vtlib/fakes.py + harness/*.py", "serves_properties": sorted(c["property_id"] for c in checks if c["engine"] == "xh"), "kind_free_text": "CrossHair symbolic execution of real Python bytecode with z3, fake I/O back ends"},
+        {"name": "symnum", "path": "vtlib/symnum.py", "serves_properties": sorted(c["property_id"] for c in checks if c["engine"] == "symnum"), "kind_free_text": "real numpy code executed on z3 reals through a numpy facade; z3 + cvc5 discharge the identities"},
+        {"name": "llsym", "path": "vtlib/llsym.py", "serves_properties": sorted(c["property_id"] for c in checks if c["engine"] == "llsym"), "kind_free_text": "symbolic interpreter for the LLVM IR clang emits for the C/C++ kernels"},
+        {"name": "selz3", "path": "vtlib/selz3.py", "serves_properties": sorted(c["property_id"] for c in checks if c["engine"] == "selz3"), "kind_free_text": "selection AST -> z3 predicate over a symbolic atom"},
     ],
     "checks": checks,
     "not_applicable": na,
